@@ -33,6 +33,11 @@ def run(chk):
     sel += [c for c in s5.sample_cases(fn, 5 if quick else 60, chk.seed + 10, max_cost=30) if c not in sel]
     items = [{"case": c, "seed": chk.seed * 100003 + i, "scalar": "float64", "ninputs": 2 if quick else 3,
               "prefill": i % 2 == 1} for i, c in enumerate(sel)]
+    # the same tensor in complex arithmetic: sesquilinear forms with complex constants / coefficients on either side
+    cx = [c for c in s5.enumerate_formspace(chk, complex_terms=True) if c["term"] in ("cplx", "sesq", "ccond")]
+    for i, c in enumerate(s5.sample_cases(cx, 4 if quick else 40, chk.seed + 11, max_cost=25 if quick else 200)):
+        items.append({"case": c, "seed": chk.seed * 100003 + 500 + i, "scalar": "complex128", "ninputs": 1 if quick else 2,
+                      "label": s5.case_label(c) + "|complex128"})
     recs = s5.run_items(chk, items, nworkers=4 if quick else 6)
     nz = s5.report(chk, items, recs)
     chk.add(distinct_nontrivial=len(nz),
